@@ -290,6 +290,27 @@ class World:
             from .trio_backend import run_trio_world
 
             run_trio_world(self)
+        self._settle()
+
+    def _settle(self, horizon: float = 1.0) -> None:
+        """After the worker has ended let what is still in flight towards the clients arrive."""
+        import heapq
+
+        sim = self.sim
+        sim.clock = None
+        self._run_over = True
+        limit = sim._now + horizon
+        guard = 0
+        while sim.heap and sim.heap[0][0] <= limit and guard < 100000:
+            t, _, cb, args = heapq.heappop(sim.heap)
+            sim._now = max(sim._now, t)
+            guard += 1
+            try:
+                cb(*args)
+            except DeadlineHit:
+                break
+            except Exception as error:  # a client callback touching the dead runtime
+                sim.notes.append(f"settle: {error!r}")
 
     def _run_asyncio(self) -> None:
         from . import aio
